@@ -91,6 +91,8 @@ func sType(shape []sField) reflect.Type {
 			sf.Type = reflect.TypeOf(map[*int]int{})
 		case "mmap":
 			sf.Type = reflect.TypeOf(map[string]map[string]int{})
+		case "pslice":
+			sf.Type = reflect.TypeOf((*[]int)(nil))
 		case "dash":
 			sf.Type = tInt
 			sf.Tag = `dials:"-"`
@@ -218,6 +220,9 @@ func sLeaf(kind string, id, idx int) reflect.Value {
 	case "pkmap":
 		v := n
 		return reflect.ValueOf(map[*int]int{&v: n})
+	case "pslice":
+		v := []int{n, n + 1}
+		return reflect.ValueOf(&v)
 	case "mmap": // two entries of the outer map hold the very same inner map
 		inner := map[string]int{fmt.Sprintf("k%d", n): n}
 		return reflect.ValueOf(map[string]map[string]int{"a": inner, "b": inner, "c": {"x": n + 1}})
@@ -322,6 +327,9 @@ func (c *sCtx) fillLayer(shape []sField, vals []sVal, out reflect.Value) {
 				} else {
 					fld.Set(reflect.MakeMap(fld.Type()))
 				}
+			case "szero":
+				// explicitly set to the zero value: a non-nil pointer to it
+				fld.Set(reflect.New(fld.Type().Elem()))
 			}
 		}
 	}
@@ -384,6 +392,10 @@ func (c *sCtx) check(shape []sField, want []sVal, got reflect.Value, path string
 			case "zero":
 				if !fld.IsZero() {
 					bad(fmt.Sprintf("expected the zero default, got %v", fld.Interface()))
+				}
+			case "szero":
+				if !fld.IsZero() {
+					bad(fmt.Sprintf("expected the zero value that layer %d set explicitly, got %v", w.V, fld.Interface()))
 				}
 			case "keep":
 				exp := sLeaf(f.K, 0, idx)
